@@ -98,6 +98,18 @@ def run(o, ctx, tier, seed, replay=None):
         if why and len(o.violations) < 50:
             o.violations.append({"case": c, "impl": a, "why": why})
     o.extra["exhaustive_depth_small_alphabet"] = 2 if t == "quick" else 3
+    # "after parsing a head": the collection a parser hands out answers like a fresh evaluation of the field lines of that head,
+    # whatever the request line says (HTTP/1.0 and 1.1, every method and target form of the guided corpus)
+    from . import parser as P
+    from gen import parse as GP
+    r = G.rng_for(seed, "c19-parsed")
+    heads = []
+    for _ in range(400 if t == "quick" else 20000):
+        w = GP.gen_wf_request(r)
+        heads.append("REQ " + hx(w))
+        heads.append("REQ " + hx(w.replace(b" HTTP/1.1\r\n", b" HTTP/1.0\r\n", 1)))
+    heads += [l for l in fuzz_cases(o, ctx, "req", tier, seed) if l.startswith("REQ ")]
+    diff_run(o, ctx, heads, oracle=P.oracle_c04, nontrivial=lambda c, a: a.startswith("OK"), tags=lambda c, a: "parsed:" + a.split()[0])
 
 
 register("C19", lean=["Khttp.Props.C19"], run=run,
